@@ -63,7 +63,14 @@ def check_bed(spec, ctx):
         ctx.label("chunk_mode_without_chunk")
     else:
         shift = cs if mode == "chunk" else 0
-    line = str(bed)
+    # the same record may be written to several tracks: a second export (and one with another score) of the same object
+    # must be the same line (apart from the score); the second line is the one that is decoded below
+    first = str(bed)
+    again = str(obj.to_bed12(**kw))
+    ctx.eq("second_export_same_line", again, first)
+    other = str(obj.to_bed12(**dict(kw, score=(spec["score"] + 1) % 1000))).split("\t")
+    ctx.eq("export_with_other_score_same_blocks", other[:4] + other[5:], first.split("\t")[:4] + first.split("\t")[5:])
+    line = again
     try:
         d = read_bed12(line)
     except Exception as e:
